@@ -45,7 +45,14 @@ SweepKill(D) == {Mk(D, KillTime(D) + o, "ignore", TRUE, ng) : o \in OffsKill, ng
 After(D) == IntTime(D) \div 3
 Late(D) == {Mk2(D, Never, oi, TRUE, FALSE, After(D)) : oi \in {"die", "ignore"}}
              \cup {Mk2(D, x, "die", TRUE, FALSE, After(D)) : x \in {y \in {2 * After(D)} : y + M + 20 <= IntTime(D)}}
-Cases(D) == Forever(D) \cup Earlies(D) \cup SweepDie(D) \cup SweepIgn(D) \cup SweepKill(D) \cup Late(D)
+\* ... and a script that starts after the interrupt was due, half a grace period into the first of the two reserved ones
+\* (the first script ignores the interrupt and leaves on its own then): a command that ignores the interrupt from its first
+\* instruction is interrupted at once and force-killed one grace period after it started - still before the deadline.
+\* Only for distances whose grace period is well above the scheduling slack (ign: the driver that runs these cases ignores
+\* SIGQUIT itself, so that its children start out ignoring it).
+LateIgnAfter(D) == IntTime(D) + Grace(D) \div 2
+LateIgn(D) == IF Grace(D) >= 150 THEN {Mk2(D, Never, "ignore", TRUE, FALSE, LateIgnAfter(D)) @@ [ign |-> TRUE]} ELSE {}
+Cases(D) == Forever(D) \cup Earlies(D) \cup SweepDie(D) \cup SweepIgn(D) \cup SweepKill(D) \cup Late(D) \cup LateIgn(D)
 AllCases == UNION {Cases(D) : D \in Ds}
 
 Init == c \in AllCases /\ PrintT(<<"EMIT", ToJson(c)>>)
